@@ -14,8 +14,23 @@ use sudachi::config::ConfigBuilder;
 use sudachi::dic::build::DictBuilder;
 use sudachi::dic::dictionary::JapaneseDictionary;
 use sudachi::dic::storage::{Storage, SudachiDicData};
+use sudachi::dic::subset::InfoSubset;
 use sudachi::dic::DictionaryLoader;
 use sudachi::input_text::InputTextIndex;
+
+/// which property the pipeline cases are checked for: C01 (partition, lossless surfaces) or C08 (code-point offsets of
+/// every reported morpheme).  Generators and the implementation runs are the same; Coq term and Rust oracle differ.
+#[derive(Clone, Copy, PartialEq, Debug)]
+pub enum Prop {
+    C01,
+    C08,
+}
+thread_local! {
+    static PROP: std::cell::Cell<Prop> = std::cell::Cell::new(Prop::C01);
+}
+fn prop() -> Prop {
+    PROP.with(|p| p.get())
+}
 
 fn res(f: &str) -> String {
     format!("{}/sudachi/tests/resources/{}", repo(), f)
@@ -38,6 +53,7 @@ struct BuiltDict {
     system: Vec<u8>,
     user: Option<Vec<u8>>,
     words: Vec<String>,
+    flavours: Vec<&'static str>,
 }
 
 fn shipped_words() -> Vec<String> {
@@ -45,8 +61,49 @@ fn shipped_words() -> Vec<String> {
     lex.lines().filter_map(|l| l.split(',').next()).filter(|w| !w.is_empty() && w.len() < 40).map(|s| s.to_string()).collect()
 }
 
-fn row(surface: &str, cost: i32, mode: &str, a: &str, b: &str) -> String {
-    format!("{s},7,7,{c},{s},名詞,普通名詞,一般,*,*,*,ヨミ,{s},*,{m},{a},{b},*,*", s = surface, c = cost, m = mode, a = a, b = b)
+/// one lexicon row: `key` is the index form (column 0, what the trie matches and what head_word_length measures),
+/// `headword` the display form (column 4) which may differ from it in text and in number of code points
+fn row(key: &str, headword: &str, cost: i32, mode: &str, a: &str, b: &str) -> String {
+    format!("{k},7,7,{c},{h},名詞,普通名詞,一般,*,*,*,ヨミ,{h},*,{m},{a},{b},*,*", k = key, h = headword, c = cost, m = mode, a = a, b = b)
+}
+
+/// display forms for entries whose headword differs from their key
+const DISPLAY: [&str; 8] = ["東", "とうきょうと", "KM", "㍿", "ｶ", "x", "漢字漢字", "é́"];
+
+/// A compound over the base words and the unit ids it declares.  Three flavours:
+/// exact   - the units spell the word;
+/// short   - the units spell a proper prefix of the word, the word goes on after the last unit;
+/// variant - additionally a non-final unit is declared as another base word (of a different length) whose end still
+///           falls on a character boundary inside the word.
+/// NodeSplitIterator only looks at the byte lengths of the units' keys and gives the rest of the word to the last unit, so
+/// every flavour must be partitioned; nothing here leaves the character boundaries of the word.
+fn gen_compound(rng: &mut Rng, base: &[(usize, String)]) -> (String, Vec<usize>, &'static str) {
+    let k = 2 + rng.below(2) as usize;
+    let mut units: Vec<(usize, String)> = (0..k).map(|_| rng.pick(base).clone()).collect();
+    let mut surface: String = units.iter().map(|u| u.1.as_str()).collect();
+    let mut flavour = "exact";
+    if rng.chance(1, 2) {
+        surface.push_str(&rng.pick(base).1);
+        flavour = "short";
+        if rng.chance(1, 2) {
+            // re-declare one non-final unit; keep it only if every cut stays on a character boundary inside the word
+            let i = rng.below(k as u64 - 1) as usize;
+            let cand = rng.pick(base).clone();
+            let mut trial = units.clone();
+            trial[i] = cand;
+            let mut pos = 0;
+            let mut ok = true;
+            for u in &trial[..k - 1] {
+                pos += u.1.len();
+                ok &= pos < surface.len() && surface.is_char_boundary(pos);
+            }
+            if ok {
+                units = trial;
+                flavour = "variant";
+            }
+        }
+    }
+    (surface, units.iter().map(|u| u.0).collect(), flavour)
 }
 
 fn build_dict(spec: &DictSpec) -> Result<BuiltDict, String> {
@@ -57,14 +114,16 @@ fn build_dict(spec: &DictSpec) -> Result<BuiltDict, String> {
             system: std::fs::read(res("system.dic.test")).map_err(|e| e.to_string())?,
             user: Some(std::fs::read(res("user.dic.test")).map_err(|e| e.to_string())?),
             words,
+            flavours: vec![],
         });
     }
     let mut rng = Rng::new(spec.seed);
     let lex = std::fs::read_to_string(res("lex.csv")).map_err(|e| e.to_string())?;
     let mut nrows = lex.lines().count();
     let mut words = shipped_words();
+    let mut flavours: Vec<&'static str> = vec![];
     let mut extra = String::new();
-    // base words
+    // base words; about a third with a display form that differs from the key
     let nbase = 4 + rng.below(8) as usize;
     let mut base: Vec<(usize, String)> = vec![];
     for _ in 0..nbase {
@@ -72,27 +131,34 @@ fn build_dict(spec: &DictSpec) -> Result<BuiltDict, String> {
         if base.iter().any(|(_, x)| x == w) {
             continue;
         }
+        let headword = if rng.chance(1, 3) {
+            flavours.push("headword_differs_from_key");
+            *rng.pick(&DISPLAY)
+        } else {
+            w
+        };
         extra.push('\n');
-        extra.push_str(&row(w, 2000 + rng.below(3000) as i32, "A", "*", "*"));
+        extra.push_str(&row(w, headword, 2000 + rng.below(3000) as i32, "A", "*", "*"));
         base.push((nrows, w.to_string()));
         words.push(w.to_string());
         nrows += 1;
     }
-    // compounds with well-formed A / B splits (units concatenate to the headword)
-    let ncomp = 1 + rng.below(4) as usize;
-    let mut comps: Vec<(usize, String)> = vec![];
+    // compounds with A / B splits
+    let ncomp = 2 + rng.below(4) as usize;
     for _ in 0..ncomp {
-        let k = 2 + rng.below(2) as usize;
-        let units: Vec<&(usize, String)> = (0..k).map(|_| rng.pick(&base)).collect();
-        let surface: String = units.iter().map(|u| u.1.as_str()).collect();
+        let (surface, units, flavour) = gen_compound(&mut rng, &base);
         if words.iter().any(|w| *w == surface) {
             continue;
         }
-        let a = units.iter().map(|u| u.0.to_string()).collect::<Vec<_>>().join("/");
-        let b = if rng.chance(1, 2) { a.clone() } else { "*".to_string() };
+        let a = units.iter().map(|u| u.to_string()).collect::<Vec<_>>().join("/");
+        let b = match rng.below(3) {
+            0 => a.clone(),
+            1 => "*".to_string(),
+            _ => units[..units.len() - 1].iter().map(|u| u.to_string()).collect::<Vec<_>>().join("/"), // coarser B split (may be a single unit)
+        };
         extra.push('\n');
-        extra.push_str(&row(&surface, 500 + rng.below(1500) as i32, "C", &a, &b));
-        comps.push((nrows, surface.clone()));
+        extra.push_str(&row(&surface, &surface, 500 + rng.below(1500) as i32, "C", &a, &b));
+        flavours.push(flavour);
         words.push(surface);
         nrows += 1;
     }
@@ -110,11 +176,15 @@ fn build_dict(spec: &DictSpec) -> Result<BuiltDict, String> {
         let mut rows = vec![];
         // a plain user word, and a user compound split into a system word and a user word
         let u0 = format!("{}{}", rng.pick(&POOL), rng.pick(&POOL));
-        rows.push(row(&u0, 100, "A", "*", "*"));
+        let u0_head = if rng.chance(1, 3) { rng.pick(&DISPLAY).to_string() } else { u0.clone() };
+        rows.push(row(&u0, &u0_head, 100, "A", "*", "*"));
         words.push(u0.clone());
         let sysw = rng.pick(&base).clone();
-        let comp = format!("{}{}", sysw.1, u0);
-        rows.push(row(&comp, -500, "C", &format!("{}/U0", sysw.0), &format!("{}/U0", sysw.0)));
+        // exact, or with a tail that belongs to no declared unit
+        let tail = if rng.chance(1, 2) { rng.pick(&base).1.clone() } else { String::new() };
+        flavours.push(if tail.is_empty() { "exact" } else { "short" });
+        let comp = format!("{}{}{}", sysw.1, u0, tail);
+        rows.push(row(&comp, &comp, -500, "C", &format!("{}/U0", sysw.0), &format!("{}/U0", sysw.0)));
         words.push(comp);
         ub.read_lexicon(rows.join("\n").as_bytes()).map_err(|e| format!("{:?}", e))?;
         ub.resolve().map_err(|e| format!("{:?}", e))?;
@@ -122,7 +192,7 @@ fn build_dict(spec: &DictSpec) -> Result<BuiltDict, String> {
         ub.compile(&mut ubytes).map_err(|e| format!("{:?}", e))?;
         user = Some(ubytes);
     }
-    Ok(BuiltDict { system, user, words })
+    Ok(BuiltDict { system, user, words, flavours })
 }
 
 // ---------------------------------------------------------------- plugin stacks
@@ -208,6 +278,7 @@ fn gen_text(rng: &mut Rng, words: &[String]) -> String {
 }
 
 // ---------------------------------------------------------------- one analysis
+#[derive(Clone)]
 struct MorphOut {
     b: usize,
     e: usize,
@@ -225,6 +296,31 @@ struct Analysis {
     accessor_panic: Option<String>,
 }
 
+/// a text, possibly very long: concatenation of (piece, repetitions); descriptions keep the recipe, not the expansion
+#[derive(Clone, Debug)]
+struct Text(Vec<(String, usize)>);
+impl Text {
+    fn plain(s: &str) -> Text {
+        Text(vec![(s.to_string(), 1)])
+    }
+    fn expand(&self) -> String {
+        self.0.iter().map(|(s, n)| s.repeat(*n)).collect()
+    }
+    fn json(&self) -> Value {
+        if self.0.len() == 1 && self.0[0].1 == 1 {
+            json!(self.0[0].0)
+        } else {
+            json!(self.0.iter().map(|(s, n)| json!([s, n])).collect::<Vec<_>>())
+        }
+    }
+    fn from_json(v: &Value) -> Text {
+        match v.as_str() {
+            Some(s) => Text::plain(s),
+            None => Text(v.as_array().unwrap().iter().map(|x| (x[0].as_str().unwrap().to_string(), x[1].as_u64().unwrap() as usize)).collect()),
+        }
+    }
+}
+
 /// everything the API reports for every morpheme of the list; a panic of an accessor is an observation, not an accident:
 /// tokenization succeeded, so a morpheme whose offsets / surface cannot be obtained is a lost piece of the input
 fn read_morphs<T: DictionaryAccess>(ml: &MorphemeList<T>) -> (Vec<MorphOut>, Option<String>) {
@@ -238,8 +334,8 @@ fn read_morphs<T: DictionaryAccess>(ml: &MorphemeList<T>) -> (Vec<MorphOut>, Opt
         match r {
             Ok(m) => out.push(m),
             Err(p) => {
-                let before: Vec<(usize, usize)> = out.iter().map(|m| (m.b, m.e)).collect();
-                let msg = format!("morpheme {} of {}: begin/end/surface panicked ({}); byte ranges read before it: {:?}", i, ml.len(), p, before);
+                let before: Vec<(usize, usize)> = out.iter().rev().take(3).rev().map(|m| (m.b, m.e)).collect();
+                let msg = format!("morpheme {} of {}: begin/end/begin_c/end_c/surface panicked ({}); byte ranges of the morphemes before it: ..{:?}", i, ml.len(), p, before);
                 return (out, Some(msg));
             }
         }
@@ -254,29 +350,66 @@ fn mode_of(m: u8) -> Mode {
         _ => Mode::C,
     }
 }
+const MODE_NAMES: [&str; 3] = ["A", "B", "C"];
+fn mode_from(v: &Value) -> u8 {
+    match v.as_str().unwrap_or("C") {
+        "A" => 0,
+        "B" => 1,
+        _ => 2,
+    }
+}
+
+/// field subsets a caller may request (Dictionary.create(fields=..), pre-tokenizers, projections): None = all fields
+fn gen_subset(rng: &mut Rng) -> Option<u32> {
+    match rng.below(6) {
+        0..=2 => None,
+        3 => Some(InfoSubset::POS_ID.bits()),
+        4 => Some(0),
+        _ => Some((rng.next() as u32) & InfoSubset::all().bits()),
+    }
+}
+fn subset_json(s: Option<u32>) -> Value {
+    match s {
+        None => Value::Null,
+        Some(b) => json!(b),
+    }
+}
+fn subset_from(v: &Value) -> Option<u32> {
+    v.as_u64().map(|b| b as u32)
+}
+fn apply_subset<D: DictionaryAccess>(tok: &mut StatefulTokenizer<D>, s: Option<u32>) {
+    if let Some(b) = s {
+        tok.set_subset(InfoSubset::from_bits_truncate(b));
+    }
+}
+
+fn dump_input<D: DictionaryAccess>(tok: &StatefulTokenizer<D>) -> (String, Vec<usize>) {
+    let inp = tok.verif_input();
+    let cur = inp.current().to_string();
+    // to_orig indexes the offset map directly: a map that is shorter than the text it belongs to is reported, not hidden
+    let m2o: Vec<usize> = (0..=cur.len()).map(|i| catch(|| inp.to_orig(i..i).start).unwrap_or(usize::MAX)).collect();
+    (cur, m2o)
+}
 
 /// Ok(None) = tokenization rejected the input (Err); Err = tokenization panicked (C03's subject)
-fn analyse(dict: &JapaneseDictionary, text: &str, mode: u8) -> Result<Option<Analysis>, String> {
+fn analyse(dict: &JapaneseDictionary, text: &str, mode: u8, subset: Option<u32>) -> Result<Option<Analysis>, String> {
     let first = catch(|| {
         // first run: the input buffer and the path in the coordinates of the rewritten text
         let mut tok = StatefulTokenizer::new(dict, mode_of(mode));
+        apply_subset(&mut tok, subset);
         tok.reset().push_str(text);
         if tok.do_tokenize().is_err() {
             return None;
         }
-        let (cur, m2o) = {
-            let inp = tok.verif_input();
-            let cur = inp.current().to_string();
-            let m2o: Vec<usize> = (0..=cur.len()).map(|i| inp.to_orig(i..i).start).collect();
-            (cur, m2o)
-        };
+        let (cur, m2o) = dump_input(&tok);
         let mut input = Default::default();
         let mut path = vec![];
-        let mut subset = Default::default();
-        tok.swap_result(&mut input, &mut path, &mut subset);
+        let mut sub = Default::default();
+        tok.swap_result(&mut input, &mut path, &mut sub);
         let nodes: Vec<(usize, usize, usize, usize)> = path.iter().map(|n| (n.begin(), n.end(), n.begin_bytes(), n.end_bytes())).collect();
         // second run: what the API reports
         let mut tok2 = StatefulTokenizer::new(dict, mode_of(mode));
+        apply_subset(&mut tok2, subset);
         tok2.reset().push_str(text);
         if tok2.do_tokenize().is_err() {
             return None;
@@ -292,7 +425,27 @@ fn analyse(dict: &JapaneseDictionary, text: &str, mode: u8) -> Result<Option<Ana
     }))
 }
 
+/// what C08 says about one reported morpheme (and C01 as well): a character-aligned range of the input, the surface is
+/// the input text of that range, the code-point offsets count the code points before the byte offsets, slicing by
+/// code points gives the same text
+fn oracle_morph(text: &str, i: usize, m: &MorphOut) -> Option<String> {
+    if m.e < m.b || m.e > text.len() || !text.is_char_boundary(m.b) || !text.is_char_boundary(m.e) {
+        return Some(format!("morpheme {} has range {}..{} which is not a character-aligned range of the input", i, m.b, m.e));
+    }
+    if m.surface != text[m.b..m.e] {
+        return Some(format!("morpheme {} surface {:?} is not the input text {:?} of its range {}..{}", i, m.surface, &text[m.b..m.e], m.b, m.e));
+    }
+    let (wb, we) = (text[..m.b].chars().count(), text[..m.e].chars().count());
+    if m.bc != wb || m.ec != we {
+        return Some(format!("morpheme {} {:?}: code-point offsets {}..{} reported, but {} and {} code points precede its byte offsets {}..{}", i, m.surface, m.bc, m.ec, wb, we, m.b, m.e));
+    }
+    None
+}
+
 fn oracle(text: &str, a: &Analysis) -> Option<String> {
+    if prop() == Prop::C08 {
+        return a.morphs.iter().enumerate().find_map(|(i, m)| oracle_morph(text, i, m));
+    }
     if a.cur.is_empty() {
         return if a.morphs.is_empty() { None } else { Some("morphemes reported although the normalised text is empty".into()) };
     }
@@ -305,14 +458,8 @@ fn oracle(text: &str, a: &Analysis) -> Option<String> {
         if m.b != pos {
             return Some(format!("morpheme {} begins at byte {} but the previous one ended at {}", i, m.b, pos));
         }
-        if m.e < m.b || m.e > text.len() || !text.is_char_boundary(m.b) || !text.is_char_boundary(m.e) {
-            return Some(format!("morpheme {} has range {}..{} which is not a character-aligned range of the input", i, m.b, m.e));
-        }
-        if m.surface != text[m.b..m.e] {
-            return Some(format!("morpheme {} surface {:?} is not the input text {:?} of its range {}..{}", i, m.surface, &text[m.b..m.e], m.b, m.e));
-        }
-        if m.bc != text[..m.b].chars().count() || m.ec != text[..m.e].chars().count() {
-            return Some(format!("morpheme {} code-point offsets {}..{} do not match byte range {}..{}", i, m.bc, m.ec, m.b, m.e));
+        if let Some(w) = oracle_morph(text, i, m) {
+            return Some(w);
         }
         cat.push_str(&m.surface);
         pos = m.e;
@@ -326,50 +473,60 @@ fn oracle(text: &str, a: &Analysis) -> Option<String> {
     None
 }
 
+fn morph_terms(ms: &[MorphOut]) -> String {
+    clist(ms.iter().map(|m| format!("mkM {} {} {} {} {}", cnu(m.b), cnu(m.e), cnu(m.bc), cnu(m.ec), cbytes(m.surface.as_bytes()))))
+}
+
 fn term(text: &str, a: &Analysis) -> String {
-    let morphs = clist(a.morphs.iter().map(|m| format!("mkM {} {} {} {} {}", cnu(m.b), cnu(m.e), cnu(m.bc), cnu(m.ec), cbytes(m.surface.as_bytes()))));
+    let morphs = morph_terms(&a.morphs);
+    let m2o = clist(a.m2o.iter().map(|x| cnu(*x)));
+    if prop() == Prop::C08 {
+        return format!("check_c08_morphs {} {} {} {}", cbytes(text.as_bytes()), cbytes(a.cur.as_bytes()), m2o, morphs);
+    }
     match &a.nodes {
         Some(nodes) => format!(
             "check_c01 {} {} {} {} {}",
             cbytes(text.as_bytes()),
             cbytes(a.cur.as_bytes()),
-            clist(a.m2o.iter().map(|x| cnu(*x))),
+            m2o,
             clist(nodes.iter().map(|n| format!("({}, {}, {}, {})", cnu(n.0), cnu(n.1), cnu(n.2), cnu(n.3)))),
             morphs
         ),
-        None => format!("check_c01_report {} {} {} {}", cbytes(text.as_bytes()), cbytes(a.cur.as_bytes()), clist(a.m2o.iter().map(|x| cnu(*x))), morphs),
+        None => format!("check_c01_report {} {} {} {}", cbytes(text.as_bytes()), cbytes(a.cur.as_bytes()), m2o, morphs),
     }
 }
 
-fn desc(text: &str, mode: u8, st: &Stack, ds: &DictSpec) -> Value {
-    let mname = ["A", "B", "C"][mode as usize];
-    json!({"kind": "c01", "text": text, "mode": mname,
-           "stack": {"input": st.input, "oov": st.oov, "rewrite": st.rewrite},
-           "dict": {"kind": ds.kind, "seed": ds.seed.to_string()}})
+fn conf_json(st: &Stack, ds: &DictSpec) -> (Value, Value) {
+    (json!({"input": st.input, "oov": st.oov, "rewrite": st.rewrite}), json!({"kind": ds.kind, "seed": ds.seed.to_string()}))
 }
 
-fn run_one(sink: &mut Sink, dict: &JapaneseDictionary, text: &str, mode: u8, st: &Stack, ds: &DictSpec, verbose: bool) -> usize {
-    let d = desc(text, mode, st, ds);
-    sink.tag(&format!("mode={}", ["A", "B", "C"][mode as usize]));
-    match analyse(dict, text, mode) {
+fn run_one(sink: &mut Sink, dict: &JapaneseDictionary, t: &Text, mode: u8, subset: Option<u32>, st: &Stack, ds: &DictSpec, verbose: bool) -> usize {
+    let (sj, dj) = conf_json(st, ds);
+    let d = json!({"kind": "c01", "text": t.json(), "mode": MODE_NAMES[mode as usize], "subset": subset_json(subset), "stack": sj, "dict": dj});
+    let text = t.expand();
+    sink.tag(&format!("mode={}", MODE_NAMES[mode as usize]));
+    if subset.is_some() {
+        sink.tag("field_subset_requested");
+    }
+    match analyse(dict, &text, mode, subset) {
         Err(p) => {
-            // a panic of analysis is C03's subject; for C01 it is only counted (well-formed generated dictionaries do not get here)
+            // a panic of analysis is C03's subject; here it is only counted (well-formed generated dictionaries do not get here)
             if verbose {
                 println!("analysis panicked: {}", p);
             }
-            sink.tag("analysis_panicked(not C01)");
+            sink.tag("analysis_panicked(not C01/C08)");
             sink.case_rust_only(d, false);
             0
         }
         Ok(None) => {
             if verbose {
-                println!("tokenization rejected the input");
+                println!("tokenization rejected the input ({} bytes)", text.len());
             }
             sink.tag("rejected_by_tokenizer");
             sink.case_rust_only(d, false);
             0
         }
-        Ok(Some(a)) => record(sink, text, &a, d, verbose),
+        Ok(Some(a)) => record(sink, &text, &a, d, verbose),
     }
 }
 
@@ -395,13 +552,22 @@ fn record(sink: &mut Sink, text: &str, a: &Analysis, d: Value, verbose: bool) ->
     if a.m2o.windows(2).enumerate().any(|(i, w)| w[0] != i && w[1] != w[0] + 1 && w[1] != w[0]) {
         sink.tag("edit_behind_a_length_changing_edit");
     }
+    // a morpheme whose original span and normalised span have different numbers of code points
+    if let Some(nodes) = &a.nodes {
+        if nodes.len() == a.morphs.len() && nodes.iter().zip(a.morphs.iter()).any(|(n, m)| m.ec >= m.bc && n.1 - n.0 != m.ec - m.bc) {
+            sink.tag("morpheme_changes_its_number_of_code_points");
+        }
+    }
     sink.tag(&format!("morphemes={}", usize::min(a.morphs.len(), 10)));
+    let long = text.len() > 3000;
     if verbose {
-        println!("input      : {:?}", text);
-        println!("normalised : {:?}", a.cur);
-        println!("m2o        : {:?}", a.m2o);
-        println!("nodes      : {:?}", a.nodes);
-        for m in &a.morphs {
+        println!("input      : {} bytes {:?}", text.len(), text.chars().take(60).collect::<String>());
+        println!("normalised : {} bytes {:?}", a.cur.len(), a.cur.chars().take(60).collect::<String>());
+        if !long {
+            println!("m2o        : {:?}", a.m2o);
+            println!("nodes      : {:?}", a.nodes);
+        }
+        for m in a.morphs.iter().rev().take(40).rev() {
             println!("  {}..{} (cp {}..{}) {:?}", m.b, m.e, m.bc, m.ec, m.surface);
         }
     }
@@ -411,16 +577,17 @@ fn record(sink: &mut Sink, text: &str, a: &Analysis, d: Value, verbose: bool) ->
             println!("accessors  : {}", p);
         }
         let id = sink.case_rust_only(d, false);
+        let covered = a.morphs.last().map(|m| m.e).unwrap_or(0);
         let what = if a.cur.is_empty() {
             format!("morphemes reported although the normalised text is empty, and they cannot be read back: {}", p)
         } else {
-            format!("tokenization succeeded but the morphemes cannot be read back: {}", p)
+            format!("tokenization succeeded but the morphemes cannot be read back (those that can cover bytes 0..{} of {}): {}", covered, text.len(), p)
         };
         sink.fail(id, &what, "");
         return a.morphs.len();
     }
     // very long inputs are checked by the Rust-side statement of the property only (no Coq term of that size)
-    let id = if text.len() > 3000 {
+    let id = if long {
         sink.tag("long_input_rust_oracle_only");
         sink.case_rust_only(d, false)
     } else {
@@ -436,52 +603,172 @@ fn record(sink: &mut Sink, text: &str, a: &Analysis, d: Value, verbose: bool) ->
     a.morphs.len()
 }
 
+// ---------------------------------------------------------------- on-demand splitting of the morphemes of a mode-C analysis
+/// Morpheme::split_into (what Python's Morpheme.split calls) for every morpheme of a mode-C result and both split modes,
+/// with the field subset the caller requested: the sub-morphemes must tile the parent (C01) and carry code-point offsets
+/// that agree with their byte offsets (C08)
+fn run_split(sink: &mut Sink, dict: &JapaneseDictionary, t: &Text, subset: Option<u32>, st: &Stack, ds: &DictSpec, verbose: bool) {
+    let (sj, dj) = conf_json(st, ds);
+    let d = json!({"kind": "c01-split", "text": t.json(), "subset": subset_json(subset), "stack": sj, "dict": dj});
+    let text = t.expand();
+    sink.tag("on_demand_split_case");
+    let ml = catch(|| {
+        let mut tok = StatefulTokenizer::new(dict, Mode::C);
+        apply_subset(&mut tok, subset);
+        tok.reset().push_str(&text);
+        if tok.do_tokenize().is_err() {
+            return None;
+        }
+        tok.into_morpheme_list().ok()
+    });
+    let ml = match ml {
+        Ok(Some(ml)) => ml,
+        _ => {
+            sink.tag("rejected_by_tokenizer");
+            sink.case_rust_only(d, false);
+            return;
+        }
+    };
+    let (parents, ppanic) = read_morphs(&ml);
+    if ppanic.is_some() {
+        // reported by the plain mode-C case of the same text
+        sink.case_rust_only(d, false);
+        return;
+    }
+    let mut groups: Vec<(usize, usize, Vec<MorphOut>)> = vec![];
+    let mut failure: Option<String> = None;
+    for (i, p) in parents.iter().enumerate() {
+        for mode in 0..2u8 {
+            let mut out = ml.empty_clone();
+            let r = catch(|| ml.split_into(mode_of(mode), i, &mut out));
+            match r {
+                Err(_) | Ok(Err(_)) => {
+                    sink.tag("split_into_panicked_or_failed(not C01/C08)");
+                    continue;
+                }
+                Ok(Ok(false)) => continue,
+                Ok(Ok(true)) => {}
+            }
+            let (subs, spanic) = read_morphs(&out);
+            sink.tag(&format!("split_into_{}_units={}", MODE_NAMES[mode as usize], usize::min(out.len(), 4)));
+            if verbose {
+                println!("split_into({}) of morpheme {} {}..{} {:?}:", MODE_NAMES[mode as usize], i, p.b, p.e, p.surface);
+                for m in &subs {
+                    println!("    {}..{} (cp {}..{}) {:?}", m.b, m.e, m.bc, m.ec, m.surface);
+                }
+            }
+            if let Some(sp) = spanic {
+                failure.get_or_insert(format!("split_into({}) of morpheme {} ({}..{}): the sub-morphemes cannot be read back: {}", MODE_NAMES[mode as usize], i, p.b, p.e, sp));
+                continue;
+            }
+            let mut bad = subs.iter().enumerate().find_map(|(k, m)| oracle_morph(&text, k, m));
+            if bad.is_none() && prop() == Prop::C01 {
+                let mut pos = p.b;
+                for (k, m) in subs.iter().enumerate() {
+                    if m.b != pos {
+                        bad = Some(format!("sub-morpheme {} begins at byte {} but the previous one ended at {}", k, m.b, pos));
+                        break;
+                    }
+                    pos = m.e;
+                }
+                if bad.is_none() && pos != p.e {
+                    bad = Some(format!("the last sub-morpheme ends at byte {}, the split morpheme at {}", pos, p.e));
+                }
+            }
+            if let Some(b) = bad {
+                failure.get_or_insert(format!("split_into({}) of morpheme {} ({}..{} {:?}): {}", MODE_NAMES[mode as usize], i, p.b, p.e, p.surface, b));
+            }
+            groups.push((p.b, p.e, subs));
+        }
+    }
+    let f = if prop() == Prop::C08 { "check_c08_subs" } else { "check_c01_subs" };
+    let term = format!("{} {} {}", f, cbytes(text.as_bytes()), clist(groups.iter().map(|(b, e, s)| format!("({}, {}, {})", cnu(*b), cnu(*e), morph_terms(s)))));
+    let id = if text.len() > 3000 { sink.case_rust_only(d, false) } else { sink.case(term, d, groups.iter().any(|g| g.2.len() > 1)) };
+    if verbose {
+        println!("oracle     : {:?}", failure);
+    }
+    if let Some(w) = failure {
+        sink.fail(id, &w, "");
+    }
+}
+
 // ---------------------------------------------------------------- reuse of one tokenizer and one result list
+/// what is done to the tokenizer before one input of a session
+#[derive(Clone, Debug)]
+struct Step {
+    text: Text,
+    mode: u8,
+    /// Some(s): set_subset(s) is called as well, before (true) or after (false) set_mode
+    subset: Option<(Option<u32>, bool)>,
+}
+fn step_json(s: &Step) -> Value {
+    json!({"text": s.text.json(), "mode": MODE_NAMES[s.mode as usize],
+           "subset": match &s.subset { None => Value::Null, Some((b, first)) => json!({"bits": subset_json(*b), "before_set_mode": first}) }})
+}
+fn step_from(v: &Value) -> Step {
+    Step {
+        text: Text::from_json(&v["text"]),
+        mode: mode_from(&v["mode"]),
+        subset: if v["subset"].is_null() { None } else { Some((subset_from(&v["subset"]["bits"]), v["subset"]["before_set_mode"].as_bool().unwrap_or(true))) },
+    }
+}
+
 /// One StatefulTokenizer and one MorphemeList are reused for a whole sequence of inputs
-/// (reset / do_tokenize / collect_results, as the CLI and the Python binding with `out=` do); inputs whose normalised form
-/// is empty are frequent and may come at any position; the mode may be switched between inputs.
+/// (set_mode / set_subset / reset / do_tokenize / collect_results, as the CLI and the Python binding with `out=` do);
+/// inputs whose normalised form is empty and inputs beyond the length limits may come at any position; mode and field
+/// subset may be switched between inputs, in either order.
 /// Every step is a case of its own; its description holds the whole prefix of the session.
-fn run_session(sink: &mut Sink, dict: &JapaneseDictionary, texts: &[String], modes: &[u8], st: &Stack, ds: &DictSpec, verbose_last: bool) {
-    let mut tok = StatefulTokenizer::new(dict, mode_of(modes[0]));
+fn run_session(sink: &mut Sink, dict: &JapaneseDictionary, init_mode: u8, steps: &[Step], st: &Stack, ds: &DictSpec, verbose_last: bool) {
+    let mut tok = StatefulTokenizer::new(dict, mode_of(init_mode));
     let mut list = MorphemeList::empty(dict);
     let mut collected_nonempty = 0usize;
-    for k in 0..texts.len() {
-        let text = &texts[k];
-        let verbose = verbose_last && k + 1 == texts.len();
-        let mnames: Vec<&str> = modes[..=k].iter().map(|m| ["A", "B", "C"][*m as usize]).collect();
-        let d = json!({"kind": "c01-session", "texts": &texts[..=k], "modes": mnames,
-                       "stack": {"input": st.input, "oov": st.oov, "rewrite": st.rewrite},
-                       "dict": {"kind": ds.kind, "seed": ds.seed.to_string()}});
+    let (sj, dj) = conf_json(st, ds);
+    for k in 0..steps.len() {
+        let step = &steps[k];
+        let text = step.text.expand();
+        let verbose = verbose_last && k + 1 == steps.len();
+        let d = json!({"kind": "c01-session", "init_mode": MODE_NAMES[init_mode as usize],
+                       "steps": steps[..=k].iter().map(step_json).collect::<Vec<_>>(), "stack": sj, "dict": dj});
         sink.tag("session_step");
-        let step = catch(|| {
-            tok.set_mode(mode_of(modes[k]));
-            tok.reset().push_str(text);
+        if step.subset.is_some() {
+            sink.tag("session_step_switches_field_subset");
+        }
+        let r = catch(|| {
+            match &step.subset {
+                None => {
+                    tok.set_mode(mode_of(step.mode));
+                }
+                Some((b, true)) => {
+                    tok.set_subset(b.map(InfoSubset::from_bits_truncate).unwrap_or_else(InfoSubset::all));
+                    tok.set_mode(mode_of(step.mode));
+                }
+                Some((b, false)) => {
+                    tok.set_mode(mode_of(step.mode));
+                    tok.set_subset(b.map(InfoSubset::from_bits_truncate).unwrap_or_else(InfoSubset::all));
+                }
+            }
+            tok.reset().push_str(&text);
             if tok.do_tokenize().is_err() {
                 return None;
             }
-            let (cur, m2o) = {
-                let inp = tok.verif_input();
-                let cur = inp.current().to_string();
-                let m2o: Vec<usize> = (0..=cur.len()).map(|i| inp.to_orig(i..i).start).collect();
-                (cur, m2o)
-            };
+            let (cur, m2o) = dump_input(&tok);
             if list.collect_results(&mut tok).is_err() {
                 return None;
             }
             Some((cur, m2o))
         });
-        match step {
+        match r {
             Err(p) => {
                 if verbose {
                     println!("analysis panicked: {}", p);
                 }
-                sink.tag("analysis_panicked(not C01)");
+                sink.tag("analysis_panicked(not C01/C08)");
                 sink.case_rust_only(d, false);
                 return; // the state of tokenizer and list after a panic is nobody's contract
             }
             Ok(None) => {
                 if verbose {
-                    println!("tokenization rejected the input");
+                    println!("tokenization rejected the input ({} bytes)", text.len());
                 }
                 sink.tag("rejected_by_tokenizer");
                 sink.case_rust_only(d, false);
@@ -494,7 +781,7 @@ fn run_session(sink: &mut Sink, dict: &JapaneseDictionary, texts: &[String], mod
                     collected_nonempty += 1;
                 }
                 let a = Analysis { cur, m2o, nodes: None, morphs, accessor_panic };
-                record(sink, text, &a, d, verbose);
+                record(sink, &text, &a, d, verbose);
             }
         }
     }
@@ -538,39 +825,83 @@ fn gen_stack(rng: &mut Rng) -> Stack {
     Stack { input, oov: rng.below(3) as u8, rewrite: rng.below(5) as u8 }
 }
 
-pub fn run(args: &Args) {
-    let mut sink = Sink::new("C01", &args.out, &["Model.Buffer"], args.seed, &args.tier);
-    sink.rule("real tokenizer (StatefulTokenizer) x plugin stacks {any sub-sequence / some reorderings of NFKC+lower-casing+rewrite table, prolonged-sound-mark collapsing, yomigana deletion} x OOV {simple; mecab+simple; mecab+regex+simple} x path rewriting {none, numeric, katakana, both} x dictionaries {shipped system+user; generated system with well-formed A/B splits; generated system + generated user dictionary referring to it} x modes A/B/C x inputs mixing dictionary words, NFKC-expanding characters (U+FDFA, ㍿, ㌔, half-width kana + marks), yomigana brackets, prolonged marks, numerals, katakana, combining marks, 4-byte characters, empty input. Every case: the path in rewritten-text coordinates, the offset map and everything Morpheme reports. Two further input classes: texts in which almost every segment is rewritten by some input-text plugin with separators that make morphemes begin at rewritten segments (later plugins edit behind length-changing earlier ones), and sessions of 3..8 inputs (1/4 empty, at any position, optional mode switches) on ONE tokenizer and ONE MorphemeList through collect_results. A panic of begin/end/surface after a successful tokenization counts as a failure of C01. non-trivial = offset map is not the identity and more than one morpheme, distinct Coq term");
-    if let Some(p) = &args.replay {
-        let v: Value = serde_json::from_str(&std::fs::read_to_string(p).unwrap()).unwrap();
-        let c = &v["case"];
-        let st = Stack {
-            input: c["stack"]["input"].as_array().unwrap().iter().map(|x| x.as_u64().unwrap() as u8).collect(),
-            oov: c["stack"]["oov"].as_u64().unwrap() as u8,
-            rewrite: c["stack"]["rewrite"].as_u64().unwrap() as u8,
-        };
-        let ds = DictSpec { kind: c["dict"]["kind"].as_u64().unwrap() as u8, seed: c["dict"]["seed"].as_str().unwrap().parse().unwrap() };
-        let mode = match c["mode"].as_str().unwrap_or("C") {
-            "A" => 0,
-            "B" => 1,
-            _ => 2,
-        };
-        let bd = build_dict(&ds).expect("dictionary");
-        let dict = load(&bd, &st).expect("load");
-        println!("configuration: {}", stack_json(&st));
-        if c["kind"] == "c01-session" {
-            let texts: Vec<String> = c["texts"].as_array().unwrap().iter().map(|x| x.as_str().unwrap().to_string()).collect();
-            let modes: Vec<u8> = c["modes"].as_array().unwrap().iter().map(|m| match m.as_str().unwrap() { "A" => 0, "B" => 1, _ => 2 }).collect();
-            println!("session on one tokenizer and one result list, inputs {:?}, modes {}; the last step:", texts, c["modes"]);
-            run_session(&mut sink, &dict, &texts, &modes, &st, &ds, true);
-            sink.finish();
-            return;
-        }
-        run_one(&mut sink, &dict, c["text"].as_str().unwrap(), mode, &st, &ds, true);
-        sink.finish();
-        return;
+/// inputs around the two length limits (49 149 bytes of input, 65 535 bytes of rewritten text): a run of a character
+/// that an input-text plugin expands, of a length drawn around / far beyond what still fits, optionally preceded and
+/// followed by ordinary text, so that the limit is crossed by the last edit, in the middle of the edits, or not at all.
+/// Every such input must be rejected, or accepted and partitioned.
+fn gen_limit_text(rng: &mut Rng) -> Text {
+    // (character, bytes before, bytes after NFKC)
+    let (c, before, after) = *rng.pick(&[("㍿", 3usize, 12usize), ("㌀", 3, 12), ("\u{FDFA}", 3, 33), ("㈱", 3, 5), ("あ", 3, 3), ("a", 1, 1)]);
+    let fits_out = 65535 / after;
+    let fits_in = 49149 / before;
+    let k = match rng.below(6) {
+        0 => fits_out,
+        1 => fits_out + 1,
+        2 => fits_out.saturating_sub(rng.below(40) as usize),
+        3 => fits_out + 1 + rng.below(300) as usize,
+        4 => fits_in,
+        _ => fits_out + rng.below((fits_in.saturating_sub(fits_out) + 1) as u64) as usize,
+    };
+    let k = usize::min(k, fits_in + 1);
+    let mut parts = vec![];
+    if rng.chance(1, 3) {
+        parts.push(((*rng.pick(&["東京都に行った", "ＡＢＣ", "京都"])).to_string(), 1));
     }
-    let mut rng = Rng::new(args.seed);
+    parts.push((c.to_string(), k));
+    if rng.chance(1, 2) {
+        parts.push(((*rng.pick(&["京都に行く", "ーー", "１２", "。"])).to_string(), 1 + rng.below(3) as usize));
+    }
+    Text(parts)
+}
+
+fn sink_rule() -> &'static str {
+    "real tokenizer (StatefulTokenizer) x plugin stacks {any sub-sequence / some reorderings of NFKC+lower-casing+rewrite table, prolonged-sound-mark collapsing, yomigana deletion} x OOV {simple; mecab+simple; mecab+regex+simple} x path rewriting {none, numeric, katakana, both} x dictionaries {shipped system+user; generated system; generated system + generated user dictionary referring to it; generated entries may have a display form that differs from their key, and A/B split declarations that spell the word exactly, spell only a prefix of it, or name a unit of another length (all cuts on character boundaries)} x modes A/B/C x requested field subsets {all, POS only, none, random} x inputs mixing dictionary words, NFKC-expanding characters (U+FDFA, ㍿, ㌔, half-width kana + marks), yomigana brackets, prolonged marks, numerals, katakana, combining marks, 4-byte characters, empty input. Every case: the path in rewritten-text coordinates, the offset map and everything Morpheme reports. Further classes: texts in which almost every segment is rewritten by some input-text plugin (later plugins edit behind length-changing earlier ones); on-demand Morpheme::split_into of every morpheme of a mode-C result; sessions of 3..8 inputs (1/4 empty, optional switches of mode and field subset in either order, occasionally an input beyond the limits) on ONE tokenizer and ONE MorphemeList through collect_results; inputs around the 49149 / 65535 byte limits (rejected, or accepted and checked). A panic of begin/end/begin_c/end_c/surface after a successful tokenization counts as a failure. non-trivial = offset map is not the identity and more than one morpheme, distinct Coq term"
+}
+
+fn replay(sink: &mut Sink, p: &std::path::Path) {
+    let v: Value = serde_json::from_str(&std::fs::read_to_string(p).unwrap()).unwrap();
+    let c = &v["case"];
+    let st = Stack {
+        input: c["stack"]["input"].as_array().unwrap().iter().map(|x| x.as_u64().unwrap() as u8).collect(),
+        oov: c["stack"]["oov"].as_u64().unwrap() as u8,
+        rewrite: c["stack"]["rewrite"].as_u64().unwrap() as u8,
+    };
+    let ds = DictSpec { kind: c["dict"]["kind"].as_u64().unwrap() as u8, seed: c["dict"]["seed"].as_str().unwrap().parse().unwrap() };
+    let bd = build_dict(&ds).expect("dictionary");
+    let dict = load(&bd, &st).expect("load");
+    println!("configuration: {}", stack_json(&st));
+    println!("dictionary   : {:?} (split-declaration flavours {:?})", ds, bd.flavours);
+    match c["kind"].as_str().unwrap_or("c01") {
+        "c01-session" => {
+            let steps: Vec<Step> = c["steps"].as_array().unwrap().iter().map(step_from).collect();
+            println!("session on one tokenizer (created in mode {}) and one result list:", c["init_mode"]);
+            for s in &steps {
+                println!("  {}", step_json(s));
+            }
+            println!("the last step:");
+            run_session(sink, &dict, mode_from(&c["init_mode"]), &steps, &st, &ds, true);
+        }
+        "c01-split" => run_split(sink, &dict, &Text::from_json(&c["text"]), subset_from(&c["subset"]), &st, &ds, true),
+        _ => {
+            println!("mode {} field subset {}", c["mode"], c["subset"]);
+            run_one(sink, &dict, &Text::from_json(&c["text"]), mode_from(&c["mode"]), subset_from(&c["subset"]), &st, &ds, true);
+        }
+    }
+}
+
+pub fn is_pipeline_case(p: &std::path::Path) -> bool {
+    std::fs::read_to_string(p).ok().and_then(|s| serde_json::from_str::<Value>(&s).ok()).map_or(false, |v| v["case"]["kind"].as_str().map_or(false, |k| k.starts_with("c01")))
+}
+
+/// replay of a pipeline case on behalf of `which`
+pub fn replay_for(which: Prop, sink: &mut Sink, p: &std::path::Path) {
+    PROP.with(|x| x.set(which));
+    replay(sink, p);
+}
+
+/// the pipeline stream: directed cases, limits, random configurations x texts x modes x subsets, on-demand splits, sessions
+pub fn pipeline(which: Prop, sink: &mut Sink, args: &Args, rng: &mut Rng) {
+    PROP.with(|x| x.set(which));
     let mut built: HashMap<(u8, u64), BuiltDict> = HashMap::new();
     // directed cases on the shipped configuration first
     let full = Stack { input: vec![0, 1, 2], oov: 1, rewrite: 4 };
@@ -581,10 +912,21 @@ pub fn run(args: &Args) {
         let directed = [
             "", "東京都", "京都東京都京都", "東京都に行った", "ｱｲｱｲｳ", "東京（とうきょう）都", "漢字(かんじ)に", "あーーーーに", "㍿東京", "\u{FDFA}京都", "１，０００に", "六三四",
             "特A", "な。な", "アイアイウ", "東京府", "ぴらる", "ＡＢ", "か\u{3099}", "東京(と)(と)都", "(と)", "ーー", "東京ーーー都〜〜", "1.5.2", "二〇二四", " ", "　 　",
+            "ｶﾞｷﾞｸﾞ東京都", "東京都(とうきょうと)に行く",
         ];
         for t in directed {
             for mode in 0..3 {
-                run_one(&mut sink, &dict, t, mode, &full, &ds0, false);
+                run_one(sink, &dict, &Text::plain(t), mode, None, &full, &ds0, false);
+                sink.tag("directed");
+            }
+            run_split(sink, &dict, &Text::plain(t), None, &full, &ds0, false);
+        }
+        for t in ["東京都", "京都東京都京都", "東京府に"] {
+            for subset in [Some(InfoSubset::POS_ID.bits()), Some(0)] {
+                for mode in 0..3 {
+                    run_one(sink, &dict, &Text::plain(t), mode, subset, &full, &ds0, false);
+                }
+                run_split(sink, &dict, &Text::plain(t), subset, &full, &ds0, false);
                 sink.tag("directed");
             }
         }
@@ -595,19 +937,34 @@ pub fn run(args: &Args) {
             (vec!["東京都に行った", "京都にいく", "", "東京に行く", " ", "", "京都"], 0),
             (vec!["ＡＢ東京都（と）にすごーーい", "", "東京都", ""], 1),
         ] {
-            let texts: Vec<String> = texts.iter().map(|s| s.to_string()).collect();
-            let modes = vec![mode; texts.len()];
-            run_session(&mut sink, &dict, &texts, &modes, &full, &ds0, false);
+            let steps: Vec<Step> = texts.iter().map(|s| Step { text: Text::plain(s), mode, subset: None }).collect();
+            run_session(sink, &dict, mode, &steps, &full, &ds0, false);
             sink.tag("directed");
         }
-        // the length limit: exactly MAX_LENGTH bytes would need a 49149-character lattice; only the rejection is exercised here
-        let long = "a".repeat(49150);
-        run_one(&mut sink, &dict, &long, 2, &full, &ds0, false);
+        // the two length limits
+        if which == Prop::C01 {
+            for _ in 0..args.n(14, 60) {
+                let t = gen_limit_text(rng);
+                let mode = rng.below(3) as u8;
+                run_one(sink, &dict, &t, mode, None, &full, &ds0, false);
+                sink.tag("around_the_length_limits");
+            }
+            // ... and inside a session: the tokenizer must stay usable and must not hand out a truncated analysis
+            for _ in 0..args.n(2, 8) {
+                let mode = rng.below(3) as u8;
+                let steps: Vec<Step> = vec![Text::plain("東京都"), gen_limit_text(rng), Text::plain("京都に行った"), gen_limit_text(rng), Text::plain("ＡＢＣ")]
+                    .into_iter()
+                    .map(|text| Step { text, mode, subset: None })
+                    .collect();
+                run_session(sink, &dict, mode, &steps, &full, &ds0, false);
+                sink.tag("around_the_length_limits");
+            }
+        }
     }
-    let nconf = args.n(60, 600);
-    let per = args.n(10, 30);
+    let nconf = if which == Prop::C01 { args.n(60, 600) } else { args.n(40, 400) };
+    let per = if which == Prop::C01 { args.n(10, 30) } else { args.n(8, 30) };
     for _ in 0..nconf {
-        let st = gen_stack(&mut rng);
+        let st = gen_stack(rng);
         let ds = DictSpec { kind: rng.below(3) as u8, seed: if rng.chance(1, 2) { 1 + rng.below(4) } else { rng.next() >> 8 } };
         let ds = if ds.kind == 0 { ds0.clone() } else { ds };
         let key = (ds.kind, ds.seed);
@@ -634,33 +991,55 @@ pub fn run(args: &Args) {
             }
         };
         sink.tag(&format!("dict_kind={}", ds.kind));
+        for f in &bd.flavours {
+            sink.tag(&format!("dict_has_{}", f));
+        }
         sink.tag(&format!("input_plugins={:?}", st.input));
         sink.tag(&format!("oov={} rewrite={}", st.oov, st.rewrite));
         for _ in 0..per {
-            let text = gen_text(&mut rng, &bd.words);
-            let counts: Vec<usize> = (0..3).map(|mode| run_one(&mut sink, &dict, &text, mode, &st, &ds, false)).collect();
+            let text = Text::plain(&gen_text(rng, &bd.words));
+            let subset = gen_subset(rng);
+            let counts: Vec<usize> = (0..3).map(|mode| run_one(sink, &dict, &text, mode, subset, &st, &ds, false)).collect();
             if counts[0] > counts[2] {
                 sink.tag("mode_A_splits_further_than_C");
             }
             if counts[1] > counts[2] {
                 sink.tag("mode_B_splits_further_than_C");
             }
+            run_split(sink, &dict, &text, subset, &st, &ds, false);
         }
         // sessions on one tokenizer + one result list
         for _ in 0..args.n(2, 6) {
             let n = 3 + rng.below(6) as usize;
-            let texts: Vec<String> = (0..n)
-                .map(|_| match rng.below(8) {
-                    0 | 1 => String::new(),
-                    2 => gen_dense(&mut rng, &bd.words),
-                    _ => gen_text(&mut rng, &bd.words),
-                })
-                .collect();
             let m0 = rng.below(3) as u8;
             let switch = rng.chance(1, 4);
-            let modes: Vec<u8> = (0..n).map(|_| if switch { rng.below(3) as u8 } else { m0 }).collect();
-            run_session(&mut sink, &dict, &texts, &modes, &st, &ds, false);
+            let subsets = rng.chance(1, 3);
+            let steps: Vec<Step> = (0..n)
+                .map(|_| Step {
+                    text: match rng.below(8) {
+                        0 | 1 => Text::plain(""),
+                        2 => Text::plain(&gen_dense(rng, &bd.words)),
+                        _ => Text::plain(&gen_text(rng, &bd.words)),
+                    },
+                    mode: if switch { rng.below(3) as u8 } else { m0 },
+                    subset: if subsets && rng.chance(1, 2) { Some((gen_subset(rng), rng.chance(1, 2))) } else { None },
+                })
+                .collect();
+            let init = if rng.chance(1, 3) { rng.below(3) as u8 } else { steps[0].mode };
+            run_session(sink, &dict, init, &steps, &st, &ds, false);
         }
     }
+}
+
+pub fn run(args: &Args) {
+    let mut sink = Sink::new("C01", &args.out, &["Model.Buffer"], args.seed, &args.tier);
+    sink.rule(sink_rule());
+    if let Some(p) = &args.replay {
+        replay_for(Prop::C01, &mut sink, p);
+        sink.finish();
+        return;
+    }
+    let mut rng = Rng::new(args.seed);
+    pipeline(Prop::C01, &mut sink, args, &mut rng);
     sink.finish();
 }
